@@ -135,6 +135,18 @@ CHECKS["C12"] = dict(
     note="Preemption happens at blocking primitives only (lock acquire, transport send/recv); trusts TLC and vf/schedworld.py.",
     ref="4 C12")
 
+CHECKS["C08"] = dict(
+    engine="Conn+ConnMC+TraceConn+Recv",
+    technique="TLC model checking of the connection machine (Conn.tla on top of Recv.tla) over all call sequences x server scripts + "
+              "TLC trace validation of real call sequences under a virtual clock",
+    text="Conn!KStep extends the receive machine with send/ping/send_close/close(status,reason,timeout)/shutdown, transport close/shutdown "
+         "and event timestamps; ConnMC explores every call sequence up to the bound against every server script (AtMostOneOwnClose, "
+         "ClosedIsClosed, CloseAlwaysReleases); all call sequences of length <=2 (sampled 3..6) over 12 calls x 12 server scripts (data, ping, "
+         "close frame(s), EOF, silence, chatty, late answer) are executed on the real object and validated by TLC including close-frame "
+         "encoding, range check first, release of the transport and the time bound of close().",
+    note="Trusts TLC and vf/networld.py (virtual clock: time advances only when a read waits); server events are whole frames.",
+    ref="4 C08")
+
 NOT_YET = {}
 
 
